@@ -593,8 +593,7 @@ func (x *Exec) builtin(st *State, fi int, b *ssa.Builtin, c *ssa.CallCommon, arg
 			k(st, Value{T: Ite(Le(a, bb), bb, a), Typ: args[0].Typ})
 		}
 	case "copy":
-		x.errorf("builtin copy unsupported")
-		k(st, x.freshValue(st, "copy", types.Typ[types.Int]))
+		k(st, x.doCopy(st, fi, c, args))
 	default:
 		x.errorf("unsupported builtin %s", b.Name())
 		k(st, Value{})
@@ -605,6 +604,38 @@ func (x *Exec) builtin(st *State, fi int, b *ssa.Builtin, c *ssa.CallCommon, arg
 // the deferred-call machinery; frames pushed by runDefers sit directly above
 // the panicking frame. We accept any frame above the unwinding one.
 func (x *Exec) inDeferredCall(st *State, fi int) bool { return true }
+
+// doCopy models copy(dst, src): n = min(len(dst), len(src)) elements are
+// copied as if through a temporary (memmove semantics); everything else in
+// dst's backing array is unchanged.
+func (x *Exec) doCopy(st *State, fi int, c *ssa.CallCommon, args []Value) Value {
+	d, s := args[0], args[1]
+	sl, ok := c.Args[0].Type().Underlying().(*types.Slice)
+	if !ok || s.T.Sort != "Slice" {
+		x.errorf("copy: unsupported operand types")
+		return x.freshValue(st, "copy", types.Typ[types.Int])
+	}
+	es := x.sortOf(sl.Elem())
+	name := x.elemHeapName(es)
+	E := x.heapGet(st, name, ArraySort("Ref", ArraySort("Int", es)))
+	x.guardCheck(st, name, true, false, c.Pos())
+	x.recHeap(name)
+	n := Ite(Le(sLen(d.T), sLen(s.T)), sLen(d.T), sLen(s.T))
+	nc := x.decls.Fresh("copy.n", "Int")
+	st.assume(Eq(nc, n))
+	A := x.decls.Fresh("copy.elems", ArraySort("Int", es))
+	dOld := Select(E, sArr(d.T))
+	sOld := Select(E, sArr(s.T))
+	j := Term{"?j", "Int"}
+	di, si := sIdx(sOff(d.T), j), sIdx(sOff(s.T), j)
+	st.assume(Term{fmt.Sprintf("(forall ((?j Int)) (! (=> (and (<= 0 ?j) (< ?j %s)) (= (select %s %s) (select %s %s))) :pattern ((select %s %s))))",
+		nc.S, A.S, di.S, sOld.S, si.S, A.S, di.S), "Bool"})
+	st.assume(Term{fmt.Sprintf("(forall ((?j Int)) (! (=> (or (< ?j %s) (>= ?j (+ %s %s))) (= (select %s ?j) (select %s ?j))) :pattern ((select %s ?j))))",
+		sOff(d.T).S, sOff(d.T).S, nc.S, A.S, dOld.S, A.S), "Bool"})
+	// a nil destination has length 0: nothing is written
+	x.heapSet(st, name, Ite(Eq(nc, IntLit(0)), E, Store(E, sArr(d.T), A)))
+	return Value{T: nc, Typ: types.Typ[types.Int]}
+}
 
 func (x *Exec) doAppend(st *State, fi int, c *ssa.CallCommon, args []Value, site ssa.Instruction) Value {
 	s, t := args[0], args[1]
